@@ -973,6 +973,26 @@ Section Mini.
   Qed.
 
 
+  (** on the excluded inputs both models fail and change nothing: only the errno differs *)
+  Theorem fsmini_rename_excluded_lemma : forall t T s d, sim t T -> s <> [] ->
+    mini_rename_precedence_ok t s d = false ->
+    Mi.rename t s d = Mi.Err Mi.ENOENT /\
+    exists e, Mi.parent_ok t d = Mi.Err e /\ e <> Mi.ENOENT /\ Go.rename T (mp s) (mp d) = Go.Err (mini_errno e).
+  Proof.
+    intros t T s d Hs Hsn Hp. unfold mini_rename_precedence_ok in Hp.
+    destruct (parent_cases t T s Hs) as [Es Ds Ls | es Es Rs | Es]; rewrite Es in Hp; try discriminate.
+    destruct (Mi.lookup t s) as [n|] eqn:Els; [discriminate|].
+    destruct (parent_cases t T d Hs) as [Ed Dd Ld | ed Ed Rd | Ed]; rewrite Ed in Hp; try discriminate.
+    assert (Hne : ed <> Mi.ENOENT) by (intros ->; discriminate).
+    assert (Eld : Mi.lstat t d = Mi.Err ed) by (unfold Mi.lstat; rewrite Ed; reflexivity).
+    split.
+    - rewrite (rename_default t s d) by (rewrite Eld; discriminate).
+      unfold rename_rest, Mi.lstat. rewrite Es. cbn [Mi.bind]. rewrite Els. reflexivity.
+    - exists ed. split; [exact Ed|]. split; [exact Hne|].
+      rewrite (gen_rename_default T (mp s) (mp d)) by (rewrite (GG.lstat_err T (mp d) _ (Rd false)); discriminate).
+      unfold Go.rename2. rewrite (GoP.resolve_lit T false (mp s) Ls) by discriminate. rewrite (Rd false). reflexivity.
+  Qed.
+
   (* ------------------------------------------------------------------ sequences *)
 
   Lemma agree_add_wf : forall r g, mini_agree sim r g -> (forall t', r = Mi.Ok t' -> mini_wf t') -> mini_agree Rw r g.
@@ -991,7 +1011,7 @@ Section Mini.
     - injection E as <- <-. exists T. split; [first [reflexivity | assumption] | split; assumption].
   Qed.
 
-  Lemma lift_obs_step : forall {A B} (f : A -> obs) (f' : B -> obs) (conv : A -> B) t T r g x t',
+  Lemma lift_obs_step : forall {A B} (f : A -> call_obs) (f' : B -> call_obs) (conv : A -> B) t T r g x t',
     (forall a, f a = f' (conv a)) -> mini_agree (fun a b => b = conv a) r g ->
     mini_lift_obs t f r = Some (x, t') -> gen_lift_obs T f' g = (x, T) /\ t' = t.
   Proof.
@@ -1006,7 +1026,7 @@ Section Mini.
   Lemma lift_some : forall t r x t', mini_lift t r = Some (x, t') -> r <> Mi.Unmodelled.
   Proof. intros t r x t' H ->. discriminate. Qed.
 
-  Lemma lift_obs_some : forall {A} t (f : A -> obs) r x t', mini_lift_obs t f r = Some (x, t') -> r <> Mi.Unmodelled.
+  Lemma lift_obs_some : forall {A} t (f : A -> call_obs) r x t', mini_lift_obs t f r = Some (x, t') -> r <> Mi.Unmodelled.
   Proof. intros A t f r x t' H ->. discriminate. Qed.
 
   Lemma mini_step_refines : forall t T o x t', mini_wf t -> sim t T -> mini_op_ok t o = true ->
@@ -1094,4 +1114,16 @@ Proof.
   - exfalso. lia.
   - assert (H' : dbl (N.to_nat (enc_std c)) (2 * k + 1) = dbl (N.to_nat (enc_std d)) (2 * l + 1)) by lia.
     apply dbl_odd_inj in H' as [H1 H2]. apply N2Nat.inj in H1. apply IH in H1. subst. reflexivity.
+Qed.
+
+(** the summary at the abstraction of the initial state itself *)
+Corollary fsmini_refines_fs_image : forall (enc : Mi.comp -> N) (ldest : N -> list Gt.comp),
+  (forall a b, enc a = enc b -> a = b) ->
+  forall (t : Mi.fs) (ops : list mini_op) (outs : list call_outcome) (t' : Mi.fs),
+    mini_wf t -> mini_ops_ok t ops = true -> mini_run ldest t ops = Some (outs, t') ->
+    exists T', gen_run enc ldest (mini_tree enc ldest t) ops = (outs, T') /\
+               tree_equiv (mini_tree enc ldest t') T' /\ mini_wf t'.
+Proof.
+  intros enc ldest Hinj t ops outs t' W Hok E.
+  apply (fsmini_refines_fs_lemma enc ldest Hinj ops t (mini_tree enc ldest t) outs t' W (sim_refl enc ldest t) Hok E).
 Qed.
